@@ -407,6 +407,58 @@ def keyword_order_cases(out):
                 out.violation(f"order:kworder:{fn.__name__}", f"{fn.__name__} on shapes {shapes}: the verdict depends on the order in which the same arrays are written: {seen}", {"kworder": str(shapes)})
 
 
+def container_leaf_type_cases(out):
+    """PyTrees whose LEAF TYPE is itself a typed container of arrays (a TypedDict, a fixed tuple, a NamedTuple field,
+    an Optional): the leaf test looks at types, shapes and dtypes of the fields only, so the verdict is the same
+    eagerly, under jit / vmap / eval_shape / grad, and for every VALUE of the elements (zeros, non-zeros, one element
+    or many)"""
+    from typing import Optional, Tuple, TypedDict
+
+    from jaxtyping import Float, Int, PyTree
+
+    tc = typeguard.typechecked
+
+    class Layer(TypedDict):
+        scale: Float[jax.Array, ""]
+        shift: Float[jax.Array, "n"]
+
+    @jaxtyped(typechecker=tc)
+    def f_td(tree: PyTree[Layer]):
+        return 0.0
+
+    @jaxtyped(typechecker=tc)
+    def f_tup(tree: PyTree[Tuple[Float[jax.Array, "n"], Int[jax.Array, ""]]]):
+        return 0.0
+
+    @jaxtyped(typechecker=tc)
+    def f_opt(tree: PyTree[Optional[Float[jax.Array, "n"]]]):
+        return 0.0
+
+    def layer(scale_dt, shift_dt, n, fill):
+        return {"scale": jnp.full((), fill, scale_dt), "shift": jnp.full((n,), fill, shift_dt)}
+
+    cases = []
+    for fill in (0, 3):
+        for n in (1, 4):
+            cases.append((f"Layer float/float n={n} fill={fill}", f_td, [layer(jnp.float32, jnp.float32, n, fill), layer(jnp.float32, jnp.float32, n, fill)], "accept"))
+            cases.append((f"Layer int scale n={n} fill={fill}", f_td, [layer(jnp.int32, jnp.float32, n, fill)], "reject"))
+            cases.append((f"Layer int shift n={n} fill={fill}", f_td, {"a": layer(jnp.float32, jnp.int32, n, fill)}, "reject"))
+            cases.append((f"Layer sizes differ n={n} fill={fill}", f_td, [layer(jnp.float32, jnp.float32, n, fill), layer(jnp.float32, jnp.float32, n + 1, fill)], "reject"))
+            cases.append((f"pair n={n} fill={fill}", f_tup, [(jnp.full((n,), fill, jnp.float32), jnp.full((), fill, jnp.int32))], "accept"))
+            cases.append((f"pair wrong dtype n={n} fill={fill}", f_tup, [(jnp.full((n,), fill, jnp.float32), jnp.full((), fill, jnp.float32))], "reject"))
+            cases.append((f"optional n={n} fill={fill}", f_opt, [jnp.full((n,), fill, jnp.float32), None], "accept"))
+    for name, fn, tree, want in cases:
+        verdicts = {"eager": classify(lambda: fn(tree))}
+        verdicts["jit"] = classify(lambda: jax.jit(fn)(tree))
+        verdicts["eval_shape"] = classify(lambda: jax.eval_shape(fn, tree))
+        verdicts["vmap"] = classify(lambda: jax.vmap(fn)(jax.tree_util.tree_map(lambda v: jnp.stack([v, v]), tree)))
+        verdicts["jit(vmap)"] = classify(lambda: jax.jit(jax.vmap(fn))(jax.tree_util.tree_map(lambda v: jnp.stack([v, v]), tree)))
+        out.case(("container-leaf", name), True, sample={"case": name, "verdicts": verdicts})
+        bad = {k: v for k, v in verdicts.items() if v != want}
+        if bad:
+            out.violation(f"trace-vs-eager:container-leaf:{fn.__name__}:{sorted(bad)[0]}", f"{name}: shapes and dtypes say {want}; got {verdicts}", {"container_leaf": name})
+
+
 def run(tier, seed, out, drv, facts):
     rng = Rng(seed, "C17")
     thorough = tier == "thorough"
@@ -417,10 +469,13 @@ def run(tier, seed, out, drv, facts):
     spy_checks(out, rng, 400 if thorough else 60)
     directed_cases(out, rng)
     keyword_order_cases(out)
+    container_leaf_type_cases(out)
 
 
 def replay(rep, out, drv, facts):
-    if "kworder" in rep:
+    if "container_leaf" in rep:
+        container_leaf_type_cases(out)
+    elif "kworder" in rep:
         keyword_order_cases(out)
     elif "directed" in rep:
         directed_cases(out, Rng(0, "replay"))
